@@ -125,6 +125,15 @@ def pyEncode (tag : Nat) (v : PyVal) : Except EncErr Bytes :=
     | .error e => .error e
   else .error .lengthOverflow
 
+/-- `write` of an object whose fields were set by `read` instead of the constructor.  The only class for which
+this differs: TextString.read_value (l.851-853) computes `padding_length = 8 - length % 8` and skips the pad
+bytes when that is 8, but — unlike ByteString.read_value (l.943-946) — never resets the attribute to 0, so a
+decoded TextString whose length is a multiple of 8 writes eight zero bytes after its value. -/
+def pyReencode (tag : Nat) (v : PyVal) : Except EncErr Bytes :=
+  match v with
+  | .textString cps => if cps.length % 8 = 0 then (pyEncode tag v).map (· ++ zeros 8) else pyEncode tag v
+  | _ => pyEncode tag v
+
 /-! ### decoders -/
 
 def readHeader (tag ty : Nat) (bs : Bytes) : Except DecErr (Nat × Bytes) :=
